@@ -73,6 +73,16 @@ package ruleset
 // NewRegexpMatcherFromList (L17.1, partition): every item lands in the list its
 // flag names - an include item is one of the include rules, an exclude item one
 // of the exclude rules - and neither list holds anything else.
+// C17: a list item is an exclude rule exactly if its text starts with '-';
+// the rule is the rest of the text after that one mark (an include rule: the
+// whole text), taken on its own as a regular expression.
+//@ func ParseRegexpListItem
+//@ property C17
+//@ ensures result1 == nil ==> result0.Regexp != nil
+//@ ensures result1 == nil ==> (result0.Exclude <==> (len(val) >= 1 && val[0] == '-'))
+//@ ensures result1 == nil && result0.Exclude ==> val == "-" + reSrc(result0.Regexp)
+//@ ensures result1 == nil && !result0.Exclude ==> val == reSrc(result0.Regexp)
+
 // Witnesses are explicit ghost maps maintained per iteration (no existential):
 // posOf(j) is where item j went, srcInc(k)/srcExc(k) where rule k came from.
 //@ ghost var posOf(int) int
